@@ -812,11 +812,7 @@ theorem readParts_stepG (hc : Contract rd pend Ok afterCR) (ib : Bytes) (hb : BO
   have hmp : ¬ (p.ctype.getD "text/plain".toList).take 10 = "multipart/".toList := by
     cases hc : p.ctype with
     | none => decide
-    | some t => simpa using (hp.ctype t hc).2.2.2.1
-  have hue : ¬ p.ctype.getD "text/plain".toList = "application/x-www-form-urlencoded".toList := by
-    cases hc : p.ctype with
-    | none => decide
-    | some t => simpa using (hp.ctype t hc).2.2.2.2
+    | some t => simpa using (hp.ctype t hc).2.2.2
   have hname : dictGet (dispParams p) "name" = some p.name := by
     unfold dictGet dispParams; simp [List.find?]
   have hfile : dictGet (dispParams p) "filename" = p.filename := by
@@ -824,7 +820,7 @@ theorem readParts_stepG (hc : Contract rd pend Ok afterCR) (ib : Bytes) (hb : BO
     have : ("name".toList == "filename".toList) = false := by decide
     cases p.filename <;> simp [List.find?, this]
   simp only [readParts, hl1, hl2, hl3, Bool.false_eq_true, if_false, filterMap_pairs, partParams_pairs,
-    partCtype_pairs ib p hp, hmp, hue, hname, hfile, hnb, hbody]
+    partCtype_pairs ib p hp, hmp, hname, hfile, hnb, hbody]
   rcases hmark with rfl | rfl
   · simp only [if_true]
     cases readParts rd ib fuel r2 <;> rfl
